@@ -10,7 +10,7 @@ SPEC = {
     'explanation': 'Bounded: node-order and neighbour-order permutations in process; PYTHONHASHSEED sub-process runs. Deductive support: keep-the-first-of-equals in update, tie extension in prune.',
     'assumptions': ['CPython randomises only str/bytes hashes (PYTHONHASHSEED)'],
     'deductive': [
-        ('K-update(ties keep the stored entry)', 'update', '^update:returns-replaced'),
+        ('K-update(ties keep the stored entry; the merged entry is the winner in EVERY slot, so the order in which candidates arrive does not matter)', 'update', '^update:(returns-replaced|slot-complete)'),
         ('K-prune(tie extension)', 'prune', 'prune:(all-ties|only-ties|dropped-are|kept-is|no-postponed)'),
         ("_build_node_path(choice is a function of the listing order: first of equals)", 'final_choice', r'first'),
         ("_match_states(every call of next() gets segment objects of its own: next() writes into them)", 'match_states', '^fresh:'),
